@@ -49,7 +49,7 @@ MANIFEST = {
             'second time under a template class that supplies '
             'guarded_getattr only; record objects (attributes and mapping '
             'protocol) are client objects like any other.',
-    'more': 'Also: items held by tuples, dict views, sized-but-unsubscriptable collections and iterators (tree branches and dtml-in); underscore names asked for with white space in front of them (quoted name attributes, subscripts of _, no-break spaces).',
+    'more': 'Also: items held by tuples, dict views, sized-but-unsubscriptable collections and iterators (tree branches and dtml-in); underscore names asked for with white space in front of them (quoted name attributes, subscripts of _, no-break spaces). The one-character underscore name _ on the name-lookup channels.',
     'note': 'Trusted: the AccessControl guard functions end in '
             'policy.validate (checked by the self-test); the channel table '
             'is the bound on "every access channel" -- a channel that is '
